@@ -16,6 +16,7 @@ use super::*;
 //@include prelude/text.rs
 //@include prelude/refs_spec.rs
 //@include prelude/resolve_l2.rs
+//@include prelude/cli_spec.rs
 } // mod pre
 use pre::*;
 
@@ -41,7 +42,7 @@ impl FixtureDatabase {
     ensures match o { Some(v) => lines.m().contains_key(usage.line) && *v == lines.m()[usage.line], None => !lines.m().contains_key(usage.line) }
 @closure 2 |def: &FixtureDefinition| -> (b: bool) ensures b == (def.name@ == usage.name@)
 @closure 3 |def_path: &PathBuf| -> (o: Option<FixtureDefinition>) ensures find_post_m(self.definitions.m(), usage.name@, pbv(def_path), o)
-@closure 4 |defs: Ref<'_, String, Vec<FixtureDefinition>>| -> (o: Option<FixtureDefinition>) ensures find_post(defs.r@, pbv(def_path), o)
+@closure 4 |defs: Ref<'_, String, Vec<FixtureDefinition>>| -> (o: Option<FixtureDefinition>) ensures find_post(defs.r@.as_ref(), pbv(def_path), o)
 @closure 5 |d: &&FixtureDefinition| -> (b: bool) ensures b == (pbv(&d.file_path) == pbv(def_path))
 @closure 6 |d: &FixtureDefinition| -> (p: PathBuf) ensures pbv(&p) == pbv(&d.file_path)
 @sig
@@ -55,6 +56,7 @@ impl FixtureDatabase {
     let ghost provf = self.provf();
     let ghost mut done1: Set<Seq<char>> = Set::empty();
     let ghost mut done2: Set<Seq<char>> = Set::empty();
+    let ghost mut done_ks: Seq<PV> = Seq::empty();
 @loopvar 1 it1
 @loop 1
     invariant
@@ -75,11 +77,19 @@ impl FixtureDatabase {
         init_cover(counts.m(), defs, entry.k@, it2.index@ as int),
 @loopstart 2
     let ghost j0 = it2.index@ as int;
+    let ghost cm_old = counts.m();
     proof {
         assert(entry.v@[j0] == *def);
         assert(defs[entry.k@][j0] == dv(def));
         assert(bucket(defs, entry.k@)[j0].file == pbv(&def.file_path));
         assert(has_def_in(defs, (pbv(&def.file_path), entry.k@)));
+    }
+@loopend 2
+    proof {
+        assert forall|n: Seq<char>| done1.contains(n) && m0.contains_key(n) implies #[trigger] init_cover(counts.m(), defs, n, m0[n]@.len() as int) by {
+            assert(init_cover(cm_old, defs, n, m0[n]@.len() as int));
+        }
+        assert(init_cover(cm_old, defs, entry.k@, j0));
     }
 @loopend 1
     proof { done1 = done1.insert(entry.k@); }
@@ -127,6 +137,10 @@ impl FixtureDatabase {
         assert(forall|f2: PV| f2 != f && fm.contains_key(f2) ==> fm[f2] == fm0[f2]);
         assert(forall|l: usize| l != def.line && fm[f].m().contains_key(l) ==> fm0.contains_key(f) && fm0[f].m().contains_key(l) && fm[f].m()[l] == fm0[f].m()[l]);
         assert(forall|l: usize| fm0.contains_key(f) && fm0[f].m().contains_key(l) ==> fm[f].m().contains_key(l));
+        assert forall|n: Seq<char>| done2.contains(n) && m0.contains_key(n) implies #[trigger] fdl_cover(fixture_def_lines.m(), defs, n, m0[n]@.len() as int) by {
+            assert(fdl_cover(fm0, defs, n, m0[n]@.len() as int));
+        }
+        assert(fdl_cover(fm0, defs, entry.k@, j0));
     }
 @loopend 3
     proof { done2 = done2.insert(entry.k@); }
@@ -151,18 +165,21 @@ impl FixtureDatabase {
         fdl_sound(fixture_def_lines.m(), defs),
         forall|n: Seq<char>| defs.contains_key(n) ==> #[trigger] fdl_cover(fixture_def_lines.m(), defs, n, defs[n].len() as int),
         cache_ok(resolution_cache.m(), defs, provf),
-        cnt_inv(counts.m(), defs, uses, provf, ref_keys(it5.seq()).take(it5.index@ as int), Seq::empty(), Seq::empty()),
+        done_ks.len() == it5.index@,
+        forall|j: int| #![trigger done_ks[j]] #![trigger it5.seq()[j]] 0 <= j < it5.index@ ==> done_ks[j] == pbv(it5.seq()[j].k),
+        cnt_inv(counts.m(), defs, uses, provf, done_ks, Seq::empty(), Seq::empty()),
 @loopstart 5
     let ghost ks = ref_keys(it5.seq());
     let ghost i5 = it5.index@ as int;
     let ghost g = pbv(entry.k);
     proof {
         assert(ks[i5] == g);
+        assert(done_ks =~= ks.take(i5));
         lemma_ref_keys_enum(it5.seq(), um, uses);
         lemma_sum_seq_set(ks, uses.dom(), file_len(uses));
         lemma_cnt_change_file(counts.m(), defs, uses, provf, ks.take(i5), Seq::empty(), g);
     }
-@after usages 1
+@after usages 2
     let ghost usv = uvs(usages@);
     proof {
         assert(um.contains_key(g) && *usages == um[g]);
@@ -232,13 +249,139 @@ impl FixtureDatabase {
     proof {
         assert(usv.take(usv.len() as int) =~= usv);
         lemma_cnt_file_done(counts.m(), defs, uses, provf, ks.take(i5), g, Seq::empty());
-        assert(ks.take(i5).push(g) =~= ks.take(i5 + 1));
+        done_ks = done_ks.push(g);
     }
 @return tail
+    assert(done_ks.no_duplicates());
+    assert forall|i: int| 0 <= i < done_ks.len() implies uses.dom().contains(#[trigger] done_ks[i]) by { }
+    assert forall|x: PV| uses.dom().contains(x) implies exists|i: int| 0 <= i < done_ks.len() && #[trigger] done_ks[i] == x by { assert(um.contains_key(x)); }
+    lemma_cnt_final(counts.m(), defs, uses, provf, done_ks, Seq::empty());
+@*/
+
+/*@ extract src/fixtures/cli.rs get_unused_fixtures
+@tags C20 C04
+@ret r
+@nocontinue 2
+@closure 1 |a: &(PathBuf, String), b: &(PathBuf, String)| -> (o: core::cmp::Ordering) ensures o == key_cmp((pbv(&a.0), a.1@), (pbv(&b.0), b.1@))
+@closure 2 || -> (o2: core::cmp::Ordering) ensures o2 == str_ord(a.1@, b.1@)
+@sig
+    requires unique_at_line(self.defs()), total_usages(self.uses()) <= usize::MAX,
+    ensures unused_post(r@, self.defs(), self.uses(), self.provf()),
+@start
+    let ghost m0 = self.definitions.m();
+    let ghost defs = self.defs();
+    let ghost uses = self.uses();
+    let ghost provf = self.provf();
+    let ghost mut done: Set<Seq<char>> = Set::empty();
+@before for 1
     proof {
-        // all files done
+        assert(keys_of(unused@) =~= Seq::<CKey>::empty());
+        assert(un_outer(keys_of(unused@), defs, uses, provf, done)) by {
+            reveal(un_outer);
+            assert forall|key: CKey| #[trigger] occ(keys_of(unused@), key) == 0 by { lemma_occ_empty(key); }
+        }
+    }
+@loopvar 1 it
+@loop 1
+    invariant
+        m0 == self.definitions.m(), defs == self.defs(), uses == self.uses(), provf == self.provf(),
+        counts_post(definition_usage_counts.m(), defs, uses, provf),
+        forall|j: int| 0 <= j < it.seq().len() ==> m0.contains_key((#[trigger] it.seq()[j]).k@) && *it.seq()[j].v == m0[it.seq()[j].k@],
+        forall|j1: int, j2: int| 0 <= j1 < j2 < it.seq().len() ==> (#[trigger] it.seq()[j1]).k@ != (#[trigger] it.seq()[j2]).k@,
+        forall|key: Seq<char>| m0.contains_key(key) ==> exists|j: int| 0 <= j < it.seq().len() && (#[trigger] it.seq()[j]).k@ == key,
+        forall|j: int| 0 <= j < it.index@ ==> done.contains((#[trigger] it.seq()[j]).k@),
+        forall|n: Seq<char>| done.contains(n) ==> exists|j: int| 0 <= j < it.index@ && (#[trigger] it.seq()[j]).k@ == n,
+        un_outer(keys_of(unused@), defs, uses, provf, done),
+@loopstart 1
+    let ghost nm = entry.k@;
+    proof {
+        assert(!done.contains(nm)) by {
+            if done.contains(nm) {
+                let j = choose|j: int| 0 <= j < it.index@ && (#[trigger] it.seq()[j]).k@ == nm;
+                assert(it.seq()[j].k@ != it.seq()[it.index@ as int].k@);
+            }
+        }
+        lemma_un_start(keys_of(unused@), defs, uses, provf, done, nm);
+        assert(bucket(defs, nm) == dvs(entry.v@));
+    }
+@loopvar 2 it2
+@loop 2
+    invariant
+        m0 == self.definitions.m(), defs == self.defs(), uses == self.uses(), provf == self.provf(),
+        counts_post(definition_usage_counts.m(), defs, uses, provf),
+        m0.contains_key(entry.k@), *entry.v == m0[entry.k@], nm == entry.k@, *fixture_name == *entry.k,
+        it2.seq() == entry.v@.as_ref(), bucket(defs, nm) == dvs(entry.v@),
+        un_inner(keys_of(unused@), defs, uses, provf, done, nm, it2.index@ as int),
+@loopstart 2
+    let ghost j0 = it2.index@ as int;
+    let ghost before = unused@;
+    let ghost d = dv(def);
+    proof {
+        assert(entry.v@[j0] == *def);
+        assert(bucket(defs, nm)[j0] == d);
+    }
+@continueproof 2 1
+    lemma_un_skip(keys_of(before), defs, uses, provf, done, nm, j0);
+@continueproof 2 2
+    lemma_un_skip(keys_of(before), defs, uses, provf, done, nm, j0);
+@after usage_count 1
+    proof {
+        assert(usage_count as nat == cval(definition_usage_counts.m(), (d.file, nm)));
+        assert(usage_count as nat == total_hits(defs, uses, provf, (d.file, nm)));
+        if usage_count != 0 { lemma_un_skip(keys_of(before), defs, uses, provf, done, nm, j0); }
+    }
+@after unused 2
+    proof {
+        lemma_un_push(keys_of(before), defs, uses, provf, done, nm, j0);
+        assert(keys_of(unused@) =~= keys_of(before).push((d.file, nm)));
+    }
+@loopend 1
+    proof {
+        lemma_un_end(keys_of(unused@), defs, uses, provf, done, nm);
+        done = done.insert(nm);
+    }
+@before sort_by 1
+    let ghost pre = unused@;
+    proof {
+        lemma_un_final(keys_of(pre), defs, uses, provf, done);
+        lemma_pair_cmp_total();
+    }
+@after sort_by 1
+    proof {
+        assert(sorted_by_cmp(unused@, pair_cmp_fn()));
+        lemma_sorted_keys(unused@);
+        lemma_perm_map(unused@, pre, kv_fn());
+        assert forall|key: CKey| #[trigger] occ(keys_of(unused@), key) == unused_target(defs, uses, provf, key) by {
+            assert(occ(keys_of(pre), key) == unused_target(defs, uses, provf, key));
+        }
     }
 @*/
+}
+
+pub open spec fn init_cover(cm: Map<CKey, usize>, defs: Map<Seq<char>, Seq<DefV>>, n: Seq<char>, upto: int) -> bool {
+    forall|i: int| 0 <= i < upto && i < bucket(defs, n).len() ==> cm.contains_key(((#[trigger] bucket(defs, n)[i]).file, n))
+}
+pub open spec fn ref_keys<'a, V>(s: Seq<RefMulti<'a, PathBuf, V>>) -> Seq<PV> { s.map_values(|e: RefMulti<'a, PathBuf, V>| pbv(e.k)) }
+/// the keys delivered by DashMap::iter enumerate the domain without repetition
+pub proof fn lemma_ref_keys_enum<'a>(s: Seq<RefMulti<'a, PathBuf, Vec<FixtureUsage>>>, um: Map<PV, Vec<FixtureUsage>>, uses: Map<PV, Seq<UseV>>)
+    requires uses == usages_view(um),
+        forall|j: int| 0 <= j < s.len() ==> um.contains_key(pbv((#[trigger] s[j]).k)),
+        forall|j1: int, j2: int| 0 <= j1 < j2 < s.len() ==> pbv((#[trigger] s[j1]).k) != pbv((#[trigger] s[j2]).k),
+        forall|key: PV| um.contains_key(key) ==> exists|j: int| 0 <= j < s.len() && pbv((#[trigger] s[j]).k) == key,
+    ensures ref_keys(s).no_duplicates(),
+        forall|i: int| 0 <= i < ref_keys(s).len() ==> uses.dom().contains(#[trigger] ref_keys(s)[i]),
+        forall|x: PV| uses.dom().contains(x) ==> exists|i: int| 0 <= i < ref_keys(s).len() && #[trigger] ref_keys(s)[i] == x,
+{
+    let ks = ref_keys(s);
+    assert forall|a: int, b: int| 0 <= a < ks.len() && 0 <= b < ks.len() && a != b implies ks[a] != ks[b] by {
+        if a < b { assert(pbv(s[a].k) != pbv(s[b].k)); } else { assert(pbv(s[b].k) != pbv(s[a].k)); }
+    }
+    assert forall|i: int| 0 <= i < ks.len() implies uses.dom().contains(#[trigger] ks[i]) by { assert(um.contains_key(pbv(s[i].k))); }
+    assert forall|x: PV| uses.dom().contains(x) implies exists|i: int| 0 <= i < ks.len() && #[trigger] ks[i] == x by {
+        assert(um.contains_key(x));
+        let j = choose|j: int| 0 <= j < s.len() && pbv((#[trigger] s[j]).k) == x;
+        assert(ks[j] == x);
+    }
 }
 } // verus!
 fn main() {}
